@@ -6,6 +6,7 @@ CONSTANTS
   MaxSteps = 0
   MaxTerms = 5
   Emit = "none"
+  FillChoices <- MC_Fill0
   Bug = "track_after_reject"
 CONSTRAINT Small
 VIEW View
